@@ -214,7 +214,7 @@ func (c *Ctx) RunHarness(prog *symgo.Program, h Harness) (*Result, error) {
 }
 
 // budget is the wall-clock budget of the solver-decided part of a check
-// (VERIF_BUDGET_S; default: none for quick, 45 minutes for thorough). Harnesses
+// (VERIF_BUDGET_S; default: 90 minutes for quick, 45 minutes for thorough). Harnesses
 // run in order of increasing bounds; one that has not started when the budget is
 // used up is skipped, one that is running is stopped. Either is listed in the
 // evidence as outside this run's claim - it is never counted as held.
@@ -225,7 +225,10 @@ func (c *Ctx) budget() time.Duration {
 	if c.Thorough() {
 		return 45 * time.Minute
 	}
-	return 0
+	// quick: every bound completes within a few minutes on the unchanged tree;
+	// the budget only bounds a run on a tree whose code has become expensive to
+	// explore, and being cut makes a quick run inconclusive (exit 2)
+	return 90 * time.Minute
 }
 
 func (c *Ctx) runEntry(prog *symgo.Program, h Harness, fn *ssa.Function) *Result {
@@ -254,6 +257,15 @@ func (c *Ctx) runEntry(prog *symgo.Program, h Harness, fn *ssa.Function) *Result
 		res.BudgetCut = fmt.Sprintf("stopped after %d paths", rep.Total)
 		return res // counterexamples found so far are still handled; no vacuity verdict on a partial run
 	}
+	if c.Thorough() && rep.UnknownN > 0 && len(rep.Cex) == 0 && !onlyUnknownProblems(rep) {
+		// fall through: other problems make the run inconclusive as usual
+	} else if c.Thorough() && rep.UnknownN > 0 && len(rep.Cex) == 0 {
+		// thorough tier: a query every solver gave up on leaves the harness
+		// undecided; it is listed as not completed (a reduced bound), not as held
+		res.BudgetCut = fmt.Sprintf("undecided: the solvers gave up on %d of %d queries", rep.UnknownN, rep.Queries)
+		res.Missing = nil
+		return res
+	}
 	for _, id := range h.Reach {
 		if rep.Reached[id] == 0 {
 			res.Missing = append(res.Missing, id)
@@ -263,6 +275,13 @@ func (c *Ctx) runEntry(prog *symgo.Program, h Harness, fn *ssa.Function) *Result
 		c.Logf("%s", rep.Summary())
 	}
 	return res
+}
+
+// onlyUnknownProblems: the report is inconclusive for no other reason than
+// solver unknowns.
+func onlyUnknownProblems(rep *symgo.Report) bool {
+	return rep.Paths["unsupported"] == 0 && rep.Paths["internal"] == 0 && (rep.Paths["unwind"] == 0 || rep.UnwindCex) &&
+		!rep.Truncated && len(rep.SolverErrs) == 0 && len(rep.CrossDiffs) == 0
 }
 
 // ---- native replay for repo harnesses ----
@@ -606,8 +625,11 @@ func (c *Ctx) Finish(o *Outcome) int {
 					"decisions": s.Decisions, "witness_inputs": s.Inputs, "observed": s.Observed})
 			}
 		}
-		if r.Rep.Inconclusive() {
+		if r.Rep.Inconclusive() && !strings.HasPrefix(r.BudgetCut, "undecided") {
 			o.Inconclusive = append(o.Inconclusive, fmt.Sprintf("%s: %s", r.H.Name, strings.Join(r.Rep.Problems, "; ")))
+		}
+		if r.BudgetCut != "" && !c.Thorough() {
+			o.Inconclusive = append(o.Inconclusive, fmt.Sprintf("%s: not completed within the quick tier's time budget (%s)", r.H.Name, r.BudgetCut))
 		}
 		for _, m := range r.Missing {
 			o.Broken = append(o.Broken, fmt.Sprintf("%s: reachability witness %q never reached (vacuous harness?)", r.H.Name, m))
